@@ -1,9 +1,9 @@
 #!/bin/sh
-# usage: tools/run_all.sh <quick|thorough>   -- runs every registered check, prints one line per property
+# usage: [PROPS="C06 C10"] tools/run_all.sh <quick|thorough>   -- runs every registered check (or those in PROPS), one line per property
 cd "$(dirname "$0")/.." || exit 2
 TIER="${1:-quick}"
 rc=0
-for p in C03 C04 C05 C06 C07 C09 C10 C11 C12 C13 C15 C16 C17 C18; do
+for p in ${PROPS:-C03 C04 C05 C06 C07 C09 C10 C11 C12 C13 C15 C16 C17 C18}; do
   out=$(./check $p $TIER 2>&1); r=$?
   echo "$p exit=$r $(echo "$out" | grep -E 'SUMMARY' | sed -e 's/SUMMARY property=[A-Z0-9]* //')"
   echo "$out" | grep -E "VIOLATION|HARNESS-ERROR" 
